@@ -59,7 +59,7 @@ def run(R):
                   flags={k2: p["obs"][k2] for k2 in ("err", "sorted", "nodup", "lstat", "slashok", "panic", "dots", "xerr", "xsorted", "xdots")},
                   as_word=dict(expected=["".join(x) for x in p.get("expw", [])], observed=["".join(x) for x in p["obs"].get("xw", [])]))
         R.violation("Glob differs from Glob.tla: %s" % json.dumps(ex, ensure_ascii=False)[:1500],
-                    dict(kind="glob", case=dict(tree=c["tree"], entries=c["entries"], pats=[{k2: p[k2] for k2 in ("comps", "slash", "abs", "rep", "exp", "expstr", "exp2", "expstr2", "expw", "expw2")}])),
+                    dict(kind="glob", case=dict(tree=c["tree"], entries=c["entries"], pats=[{k2: p[k2] for k2 in ("comps", "slash", "abs", "rep", "exp", "expstr", "exp2", "expstr2", "wtext", "expw", "expw2")}])),
                     coords=dict(pattern=p["obs"]["text"]))
     R.exhaustive = R.tier != "quick"
     R.evaluations = sum(len(c["pats"]) for c in obs)
